@@ -13,7 +13,7 @@ for d in seeded/*/; do
   id=$(basename $d)
   p=${id%%-*}
   git -C $R checkout -q -- . 2>/dev/null
-  if ! git -C $R apply "$d/patch.diff" 2>/dev/null; then echo "$id PATCH-DOES-NOT-APPLY"; continue; fi
+  if ! git -C $R apply "$(pwd)/$d/patch.diff" 2>/dev/null; then echo "$id PATCH-DOES-NOT-APPLY"; continue; fi
   out=$(VERIF_SEED=${VERIF_SEED:-5} ./check $p --tier quick 2>&1 | grep -E "^(VIOLATION|C[0-9]+ tier|INFRA)" | head -2 | cut -c1-120 | tr '\n' ' ')
   if echo "$out" | grep -q VIOLATION; then echo "$id caught"; else echo "$id MISSED: $out"; miss=$((miss+1)); fi
 done
